@@ -159,6 +159,7 @@ def run(rep: core.Report):
     rep.rule("R11e", "DOS normalisation sites divide by the number of grid points / sum of weights and multiply by the q-point weight", 7)
     rep.rule("R11f", "sort_omegas is a correct sorting network that returns the sorted position of vertex 0, for all 24 strict orderings (finite ordering domain)", 24)
     rep.rule("R11g", "dispatch tables (i, ci) -> closed form and the case split on omega agree between C and Python", 40)
+    rep.rule("R11i", "every integration weight the TetrahedronMesh iterator stores comes from TetrahedronMethod.run(frequency points, selector) on every path (no data-dependent shortcut)", 2)
     rep.rule("R11h", "epsilon guards return 0 only for |delta| < THM_EPSILON / n < THM_EPSILON, and THM_EPSILON is defined for every CMake target that compiles the file", 14)
     rep.assume("vertex frequencies pairwise distinct (generic branch of _f); omega, v0..v3 real")
 
@@ -197,6 +198,54 @@ def run(rep: core.Report):
     _r11f(rep, tu)
     _r11g(rep, tu, P)
     _r11h(rep, C)
+    _r11i(rep)
+
+
+# ---------------------------------------------------------------------------
+# R11i: provenance of the iterated integration weights
+# ---------------------------------------------------------------------------
+
+
+def _r11i(rep):
+    from engine import pyabs
+
+    rel = "phonopy/phonon/tetrahedron_mesh.py"
+    fn = core.find_method(rel, "TetrahedronMesh", "__next__")
+    stores = [s for s in ast.walk(fn) if isinstance(s, ast.Assign) and isinstance(s.targets[0], ast.Subscript) and core.src(s.targets[0].value) == "self._integration_weights"]
+    if not stores:
+        raise AnalysisError("TetrahedronMesh.__next__: store into self._integration_weights vanished")
+    R = pyabs.Resolver.__new__(pyabs.Resolver)
+    for st in stores:
+        v = st.value
+        srcs = []
+        if isinstance(v, ast.Name):
+            defs, need_param = pyabs.Resolver._reaching(R, v.id, v, fn)
+            for kind, d in defs:
+                srcs.append(core.src(d.value) if kind in ("assign", "annassign") else f"<{kind}>")
+        else:
+            srcs.append(core.src(v))
+        ok = bool(srcs) and all(x == "self._tm.get_integration_weight()" for x in srcs)
+        rep.instance("R11i", rel, "TetrahedronMesh.__next__", f"{core.src(st.targets[0])} = {core.src(v)}  <- {sorted(set(srcs))}", ok,
+                     f"a value stored as integration weight of a band does not come from the tetrahedron method on every path ({sorted(set(srcs))}): for the cumulative selector 'J' a band outside the frequency window must contribute 1/N, not a constant", line=st.lineno)
+        # the method is run for this band before its weight is read, on every path to the store
+        runs = [c for c in ast.walk(fn) if isinstance(c, ast.Call) and core.src(c.func) == "self._tm.run"]
+        dominated = False
+        for c in runs:
+            stmt = c
+            while not isinstance(stmt, ast.stmt):
+                stmt = stmt._parent
+            cur = st
+            while cur is not None and cur is not fn:
+                par = getattr(cur, "_parent", None)
+                for field in ("body", "orelse"):
+                    lst = getattr(par, field, None)
+                    if isinstance(lst, list) and cur in lst and stmt in lst and lst.index(stmt) < lst.index(cur):
+                        dominated = True
+                cur = par
+        kw = {k.arg: core.src(k.value) for c in runs for k in c.keywords}
+        args_ok = bool(runs) and all(core.src(c.args[0]) == "self._frequency_points" for c in runs if c.args) and kw.get("value") == "self._value"
+        rep.instance("R11i", rel, "TetrahedronMesh.__next__", "self._tm.run(self._frequency_points, value=self._value) dominates the store", dominated and args_ok,
+                     "the tetrahedron method is not run unconditionally with the iterator's frequency points and selector before the weight of a band is stored", line=st.lineno)
 
 
 # ---------------------------------------------------------------------------
